@@ -1404,6 +1404,15 @@ pub fn search(name: &str, seed: u64) -> Value {
                 ("(mod (X) (include *standard-cl-21*) (defun-inline s1 (N) (* 2 (s1 (- N 1)))) (s1 X))", "s1|recurs", "(mod (X) (include *standard-cl-21*) (defun s1 (N) (if N (* 2 (s1 (- N 1))) 1)) (s1 X))"),
             ];
             for (bad, names, good) in cases.iter() { if let Some(v) = chk_scope(bad, names, good) { return v; } }
+            // an unbound identifier that is not plain ASCII (finding F28: strictness is only applied to `printable` atoms)
+            let more: Vec<(&str, &str, &str)> = vec![
+                ("(mod (X) (include *standard-cl-23*) (+ X \u{fc}nbound))", "nbound", "(mod (X) (include *standard-cl-23*) (+ X 1))"),
+                ("(mod (X) (include *strict-cl-21*) (+ X und\u{e9}fined))", "fined", "(mod (X) (include *strict-cl-21*) (+ X 1))"),
+                ("(mod (X) (include *standard-cl-23*) (defun f (A) (+ A \u{3b1})) (f X))", "Unbound", "(mod (X) (include *standard-cl-23*) (defun f (A) (+ A 1)) (f X))"),
+                ("(mod (X) (include *standard-cl-24*) (+ X \u{fc}nbound))", "nbound", "(mod (X) (include *standard-cl-24*) (+ X 1))"),
+                ("(mod (X) (include *standard-cl-23.1*) (defun f (A) (+ A \u{3b1})) (f X))", "Unbound", "(mod (X) (include *standard-cl-23.1*) (defun f (A) (+ A 1)) (f X))"),
+            ];
+            for (bad, names, good) in more.iter() { if skipped(&json!({"ill_scoped": bad, "repaired": good})) { continue; } if let Some(v) = chk_scope(bad, names, good) { return v; } }
             nf("17 ill-scoped programs (redefinitions of a reachable function also under cl23 / cl23.1 / cl24), each compiled in a child process (unbound name in main / in defun under a strict dialect, duplicate defun, inline+defun of one name, direct and mutual inline recursion with the back edge in head and in argument position (cycles of 1, 2 and 3), cyclic assign incl. self-reference, duplicate assign binding) are rejected with an error naming the culprit, and each repaired twin compiles")
         }
         "repl" => {
@@ -1724,6 +1733,7 @@ pub fn run_input(name: &str, input: &Value) -> Value {
         "repl" => { let defs: Vec<String> = input["definitions"].as_array().map(|a| a.iter().filter_map(|x| x.as_str().map(|s| s.to_string())).collect()).unwrap_or_default(); let dr: Vec<&str> = defs.iter().map(|s| s.as_str()).collect(); chk_repl(&dr, input["expression"].as_str().unwrap_or("")).unwrap_or_else(|| nf("input does not violate the contract on this tree")) }
         "cldb" => chk_cldb(&bytes(&input["program"]), input["env"].as_u64().unwrap_or(0) as u8).unwrap_or_else(|| nf("input does not violate the contract on this tree")),
         "compose_paths" => chk_compose_paths(&big(&input["p"]), &big(&input["q"])).unwrap_or_else(|| nf("input does not violate the contract on this tree")),
+        "scoping" => chk_scope(input["ill_scoped"].as_str().unwrap_or(""), "Unbound|Duplicate|recurs|deadlock", input["repaired"].as_str().unwrap_or("()")).unwrap_or_else(|| nf("input does not violate the contract on this tree")),
         _ => nf("no replayer for this obligation"),
     }
 }
